@@ -9,6 +9,7 @@
 
 #[verifier::external_body]
 struct SError { _p: u8 }
+//@ stubs sst/src/lib.rs -> SError
 
 struct Ent { key: Seq<u8>, ts: u64, val: Option<Seq<u8>> }
 
